@@ -177,6 +177,8 @@ pub struct KnownFinding {
     pub locus_contains: Vec<String>,
     /// the minimised root source must match (for findings on raw, mutated sources)
     pub source_regex: String,
+    /// matched against the re-printed text of the root file (C14)
+    pub printed_regex: String,
 }
 
 pub fn load_known_findings() -> Vec<KnownFinding> {
@@ -214,6 +216,7 @@ pub fn load_known_findings() -> Vec<KnownFinding> {
             classes: strs("classes"),
             locus_contains: strs("locus_contains"),
             source_regex: v.get("source_regex").and_then(|x| x.as_str()).unwrap_or("").to_string(),
+            printed_regex: v.get("printed_regex").and_then(|x| x.as_str()).unwrap_or("").to_string(),
         });
     }
     out
